@@ -334,10 +334,10 @@ def enum_cases(tier):
                         k += 1
                         if tier == "quick" and k % 4:
                             continue
-                        for maxsize, block in ((1, True), (2, False)) if tier != "quick" else (((1, True),) if k % 8 else ((2, False),)):
+                        for maxsize, block in ((1, True), (2, False)) if tier != "quick" else (core.pick(k, 4, (((1, True),), ((1, True),), ((2, False),)))):
                             yield {"kind": "hist", "pool": kind, "maxsize": maxsize, "block": block, "retries": rs, "preload": preload, "release": release,
-                                   "script": [o], "requests": [{"m": ("GET", "POST")[k % 2], "d": d}, {"m": "GET", "d": disposals_for(preload, release)[k % len(disposals_for(preload, release))]}],
-                                   "addrs": (1, 1, 2, 3)[(k // 4) % 4]}
+                                   "script": [o], "requests": [{"m": core.pick(k, 1, ("GET", "POST")), "d": d}, {"m": "GET", "d": core.pick(k, 2, disposals_for(preload, release))}],
+                                   "addrs": core.pick(k, 3, (1, 1, 2, 3))}
 
 
 def head_cases(tier):
@@ -349,7 +349,7 @@ def head_cases(tier):
             for d in disposals_for(preload, release):
                 for kind in ("http", "tunnel") if tier == "quick" else KINDS:
                     k += 1
-                    yield {"kind": "hist", "pool": kind, "maxsize": (1, 2)[k % 2], "block": bool(k % 3), "retries": RETRIES[k % len(RETRIES)], "preload": preload, "release": release,
+                    yield {"kind": "hist", "pool": kind, "maxsize": core.pick(k, 1, (1, 2)), "block": core.pick(k, 2, (True, True, False)), "retries": core.pick(k, 3, RETRIES), "preload": preload, "release": release,
                            "script": [o], "requests": [{"m": "HEAD", "d": d}, {"m": "GET", "d": "read"}], "addrs": 1}
 
 
